@@ -785,6 +785,9 @@ CORPUS = [
     'names str[2,1] = [["ab"],["c"]]   # strings',
     "flags bool[3] = [true,false,true]",
     "big int[:,1] = [[9223372036854775807],[-9223372036854775808]]",
+    # instances of C13_directive_lines_lexed
+    "a int = 1\n   !constant   # frozen\nb int = 2", "  $unit length = 1 m\na int = 1",
+    "a int = 1\n    $unit\tmass = 2 kg # c\nb int = 2",
     # instances of the scalar text-level theorems (C13_int/float/bool_scalar_text, C13_str_quoted_text)
     'i uint16 =  +0034 m  # c\nf float128   = -1.5E-3 s\ng float = .5\nh float = 5.\ns str = "x # y z" # c\nb bool = false#c',
 ]
